@@ -40,6 +40,24 @@ def write_schedule_file(path, schedules):
             f.write("end\n")
 
 
+def hung_broken(h, chunk):
+    """Which schedule and which event the harness was stuck in: the first schedule without an end record; the event after
+    its last record."""
+    ended = {r["case"] for r in h.partial if r.get("end")}
+    last = {}
+    for r in h.partial:
+        if not r.get("end"):
+            last[r["case"]] = r["i"]
+    for sc in chunk:
+        if sc["name"] not in ended:
+            i = last.get(sc["name"], -1) + 1
+            evs = sc["events"][: i + 1]
+            return Broken("harness-hung", "the run never finished: event %d ('%s') of schedule %s did not complete and nothing else could proceed (a thread holds a lock or a queue slot another one waits for)"
+                          % (i, sc["events"][i] if i < len(sc["events"]) else "<end of schedule / shutdown>", sc["name"]),
+                          component="locks", schedule=dict(name=sc["name"], cfg=sc["cfg"], events=evs))
+    return Broken("harness-hung", "the run never finished", component="locks")
+
+
 def run_impl(binary, schedules, tag="sched"):
     """Runs schedules on the real code. Returns {name: [event records]}."""
     ensure_dirs()
@@ -53,7 +71,10 @@ def run_impl(binary, schedules, tag="sched"):
         idx, chunk = idx_chunk
         path = os.path.join(TMP, "%s_%d.txt" % (tag, idx))
         write_schedule_file(path, chunk)
-        return run_harness(binary, ["run", path])
+        try:
+            return run_harness(binary, ["run", path])
+        except HarnessHung as h:
+            raise hung_broken(h, chunk)
 
     with ThreadPoolExecutor(max_workers=NPROC) as ex:
         for recs in ex.map(one, enumerate(chunks)):
